@@ -638,10 +638,10 @@ func (e *c7Env) runStateCase(ci int) {
 	known := map[uint64]bool{}
 	var exp *raftState // acknowledged logical state (nil before the first successful NewFSState)
 	var st *fsState
-	big := r.Chance(1, 7)
+	big := r.Chance(1, 5)
 	idPool := []string{"n1", "n2", "n3", "n\"4"}
 	if big {
-		idPool = append(idPool, strings.Repeat("L", 33000), strings.Repeat("M", 40000))
+		idPool = append(idPool, strings.Repeat("L", 66000), strings.Repeat("M", 70000))
 	}
 	desc := []string{}
 
@@ -714,6 +714,9 @@ func (e *c7Env) runStateCase(ci int) {
 			e.opDesc = fmt.Sprintf("SetVoteFor(%q)", v)
 		case c < 8:
 			id := idPool[r.Intn(len(idPool))]
+			if big && r.Bool() {
+				id = idPool[len(idPool)-1-r.Intn(2)]
+			}
 			g := r.U64() >> 2
 			nw.SeenGUIDs[id] = g
 			line = []int64{5, 0, ids.codeOf(id), int64(g)}
@@ -1156,7 +1159,7 @@ func (e *c7Env) runSnapCase(ci int) {
 		return
 	}
 	desc = append(desc, "new")
-	nrounds := r.Range(2, 6)
+	nrounds := r.Range(2, 7)
 	for ri := 0; ri < nrounds; ri++ {
 		// choose metadata: non-decreasing (term, index); sometimes the same as the current snapshot
 		switch r.Intn(6) {
@@ -1334,8 +1337,8 @@ func TestVerifC07B(t *testing.T) {
 	}
 	tr := vw.OpenTrace("C07B.trace")
 	root := vw.NewRng(vw.Seed())
-	nState := vw.Scale(36, 600)
-	nSnap := vw.Scale(22, 400)
+	nState := vw.Scale(48, 800)
+	nSnap := vw.Scale(30, 500)
 	total := 0
 	for ci := 0; ci < nState+nSnap; ci++ {
 		id := fmt.Sprintf("s%d", ci)
